@@ -419,11 +419,12 @@ ShapeChoices(size, kinds) ==
        \cup (IF MaxClasses = 0 THEN {} ELSE UNION {{[pop EXCEPT !.classes = <<<<k, v>>>>] : v \in Vectors(ClassRoot(k))} : k \in ClassKinds})
 
 StoreAny ==
-  \E size \in 0..MaxSize :
-    \E kinds \in Seqs(Kinds, size), evs \in Seqs(EvCounts, size), revs \in Seqs(Revs, size),
-       tl \in Seqs(Lens, size), rl \in Seqs(Lens, size), src \in Sources(size) :
-      \E shp \in ShapeChoices(size, kinds) :
-        Store(size, kinds, evs, revs, tl, rl, src, shp)
+  /\ Len(chain) < MaxBlocks         \* (Store's own guard, hoisted: nothing to enumerate on a full chain)
+  /\ \E size \in 0..MaxSize :
+      \E kinds \in Seqs(Kinds, size), evs \in Seqs(EvCounts, size), revs \in Seqs(Revs, size),
+         tl \in Seqs(Lens, size), rl \in Seqs(Lens, size), src \in Sources(size) :
+        \E shp \in ShapeChoices(size, kinds) :
+          Store(size, kinds, evs, revs, tl, rl, src, shp)
 ReadAny == \E fam \in MemoFamilies : \E key \in Known(fam) : Read(fam, key)
 
 Next == StoreAny \/ Revert \/ ReadAny
